@@ -800,8 +800,11 @@ class NumpyTensorSpace(TensorSpace):
                     new_array = np.asarray(space.weighting.array[indices])
                     weighting = NumpyTensorSpaceArrayWeighting(
                         new_array, space.weighting.exponent)
-                else:
+                elif is_numeric_dtype(space.dtype):
                     weighting = space.weighting
+                else:
+                    # No weighting applicable for non-numeric data types
+                    weighting = None
 
                 return type(space)(newshape, space.dtype, weighting=weighting)
 
